@@ -52,6 +52,18 @@ SnPathClasses == SnNodePathClasses \cup SnCpuPathClasses
 SnInteresting(fc, pc) == \/ fc \in SnNodeFeatures /\ pc \in SnNodePathClasses
                          \/ fc \in SnCpuFeatures /\ pc \in SnCpuPathClasses
 
+\* Some per-instance attributes do not describe the instance on its own but RANK it among the others: discovery partitions
+\* the instances by the value of each such attribute (CPU kinds: capacity, base / maximal frequency, core type) and combines
+\* the partitions of the different attributes.  In the bundled snapshots these partitions nest (every attribute is there for
+\* every CPU and the values follow the same groups of CPUs); they stop nesting when each attribute is missing on a DIFFERENT
+\* part of the instances, which no single removal, whole-class removal or small random set produces.  For these (feature
+\* class, path class) pairs the model removes the attributes in a staggered way: SnStaggerLoses says which instances lose
+\* the j-th attribute class (j = 0, 1, ...; instances numbered 1, 2, ... in numeric order) under modulus m and offset s.
+\* With m above the number of attribute classes some instances keep every attribute, with m below it several attribute
+\* classes are missing on the same instances.
+SnStaggered(fc, pc) == fc = "kinds" /\ pc = "cpu.kind"
+SnStaggerLoses(i, j, m, s) == (i + s) % m = j % m
+
 (* ---- the instance-directory rule ---- *)
 Digits == {"0", "1", "2", "3", "4", "5", "6", "7", "8", "9"}
 EndsInDigit(path) == Len(path) > 0 /\ SubSeq(path, Len(path), Len(path)) \in Digits
